@@ -219,9 +219,16 @@ def check_mixed(res):
             'globmatch-realpath': lambda p, n: G.globmatch(n, p, flags=G.REALPATH, root_dir=root if isinstance(n, str) else os.fsencode(root)),
             'fnmatch-list': lambda p, n: F.fnmatch(n, [p, p]),
             'exclude-mix': lambda p, n: F.fnmatch(n, type(n)() + (b'*' if isinstance(n, bytes) else '*'), exclude=p),
+            # exclusions only: no inclusion regex ever touches the name
+            'fnmatch-negation-only': lambda p, n: F.fnmatch(n, (b'!' if isinstance(p, bytes) else '!') + p, flags=F.NEGATE),
+            'filter-negation-only': lambda p, n: F.filter([n], (b'!' if isinstance(p, bytes) else '!') + p, flags=F.NEGATE),
+            'globmatch-negation-only': lambda p, n: G.globmatch(n, (b'!' if isinstance(p, bytes) else '!') + p, flags=G.NEGATE),
+            'globmatch-negateall': lambda p, n: G.globmatch(n, (b'!' if isinstance(p, bytes) else '!') + p, flags=G.NEGATE | G.NEGATEALL),
         }
         for name, fn in calls.items():
-            for p, n in (('a*', b'a'), (b'a*', 'a')):
+            for p, n in (('a*', b'a'), (b'a*', 'a'), ('a*', b''), (b'a*', '')):
+                if not n and name in ('filter', 'globfilter', 'filter-negation-only', 'globmatch-realpath', 'exclude-mix'):
+                    continue
                 res.n['evaluations'] += 1
                 res.n['distinct_nontrivial'] += 1
                 r = _call(fn, p, n)
